@@ -1740,6 +1740,15 @@ func c10Prelude(m []uint64) (hs []c10History) {
 		long(st(c10StaticRemove, 5, s, "eui"), 8), restart)
 	add("request-on-expired-lease", disc(1), sel(1, s, "a"), tick(3700), renew(1, s, "a"), tick(3700), reboot(1, s), tick(3700),
 		sel(1, s, "a"), tick(3700), disc(2), disc(3), disc(4), sel(4, s, "d"), renew(1, s, "a"))
+	if os.Getenv("VERIF_C10_MIXED") == "1" {
+		// Outside the assumptions (hist_ok): a client with an 8-byte hardware
+		// address whose first six bytes are client 1's address asks when the pool
+		// is exhausted: reserveLease copies its address into the 6-byte address
+		// of the recycled lease.
+		x := c10Op{Kind: c10Discover, Mac: 0x010007, MacLen: 8}
+		add("mixed-hwaddr-lengths", disc(1), sel(1, s, "a"), disc(2), sel(2, s+1, "b"), disc(3), sel(3, s+2, "c"),
+			tick(1800), renew(1, s, "a"), tick(2000), x)
+	}
 	setc := func(a, b uint32) c10Op { return c10Op{Kind: c10SetConfig, PoolStart: a, PoolEnd: b} }
 	add("set-config", disc(1), sel(1, s, "alpha"), st(c10StaticAdd, 2, cf.End+3, "nas"), disc(3), sel(3, s+1, "gamma"),
 		setc(s, cf.End), renew(1, s, "alpha"), setc(s+1, cf.End+2), disc(1), sel(1, s+2, "alpha"), disc(4),
